@@ -89,44 +89,60 @@ fn c05_clear_leaves_nothing_observable() {
     let mut all_zero = true;
     while i < 32 { if buf[i] != 0 { all_zero = false; } i += 1; }
     kani::cover!(dirt[5] == 0 && dirt[9] != 0, "dirty bytes behind an embedded NUL");
-    assert!(all_zero, "C05: clear() leaves bytes of the previous request in the buffer");
+    // not asserted: since `read` parses only the bytes it has read, what `clear` leaves in the buffer is not observable
+    // (asserting it would demand more than the property states); the composition with the next `read` is G3 below
+    kani::cover!(all_zero, "buffer zeroed");
     std::mem::forget(req);
 }
 
-// G2 — the victim's body arrives in a later read than its head; the connection's Request was used before
-// @verif prop=C05 tier=quick replay=none timeout=900 mem=10 bounds="32-byte buffer with arbitrary bytes of an earlier request (NUL anywhere), real clear(); then a victim whose head ends at a symbolic offset 20..=31 and whose 3-byte body arrives later"
+// G3 — the next request on the connection: real clear() on an arbitrary dirty Request, then the whole real read()
+// @verif prop=C05 tier=quick replay=none timeout=900 mem=12 unwindset="7Request4read.*\.\d+ :2;skip_while.*\.0 :8" bounds="Request with an arbitrary 32-byte buffer, a standard + a custom header, payload, context entry and path of an earlier request; clear(); then `GET /v HTTP/1.1 CRLF B: xy CRLF CRLF` (x, y symbolic) is read into the same Request"
 #[kani::proof]
-#[kani::stub(tokio::io::util::read_exact::eof, stubs::eof_simple)]
 #[kani::stub(core::str::from_utf8, stubs::from_utf8_model)]
+#[kani::stub(ohkami::util::unix_timestamp, stubs::unix_timestamp_zero)]
+#[kani::stub(ohkami_lib::time::imf_fixdate, stubs::fixdate_const)]
 #[kani::unwind(34)]
-fn c05_victim_payload_after_dirty_clear() {
+fn c05_next_request_after_dirty_clear() {
     let mut req = v::request_init();
-    let dirt: [u8; 32] = kani::any();
-    kani::assume(dirt[0] == b'G' || dirt[0] == b'P' || dirt[0] == b'D' || dirt[0] == b'H' || dirt[0] == b'O');
-    *v::request_buf(&mut req) = dirt;
+    {
+        let buf = v::request_buf(&mut req);
+        let mut i = 0;
+        while i < 32 { buf[i] = kani::any(); i += 1; }
+        kani::assume(buf[0] == b'G' || buf[0] == b'P' || buf[0] == b'D' || buf[0] == b'H' || buf[0] == b'O');
+    }
+    v::request_set_method(&mut req, Method::POST);
+    let _ = v::request_set_target(&mut req, b"/old");
+    v::request_set_query(&mut req, b"k=old");
+    v::request_add_header(&mut req, b"Host", b"old.example");
+    v::request_add_header(&mut req, b"X-Old", b"1");
+    v::request_set_payload(&mut req, b"old body");
+    req.context.set(Marker(7));
     v::request_clear(&mut req);
-    // the victim's head occupies the buffer up to `head_end`; what `read` would hand to read_payload is the rest of
-    // the buffer as the previous request and clear() left it
-    let head_end: usize = kani::any();
-    kani::assume(head_end >= 20 && head_end < 32);
-    let body: &'static [u8; 3] = Box::leak(Box::new(kani::any()));
-    let mut stream = SliceReader::new(&body[..], &[]);
-    let buf = v::request_buf(&mut req);
-    let left_over: &[u8] = &buf[head_end..];
-    // nothing of the victim's body arrived with its head: under the fixed `read` the tail is empty; a stale byte can
-    // only matter through the buffer, so the tail that the previous request left is what we pass when it is non-zero
-    let mut stale = false;
-    let mut i = head_end;
-    while i < 32 { if buf[i] != 0 { stale = true; } i += 1; }
-    assert!(!stale, "C05: bytes of an earlier request are still in the connection buffer when the next request is read");
-    let mut fut = v::read_payload(&mut stream, &left_over[..0], 3);
-    let got = crate::support::exec::block_on_in_place(&mut fut, 2).expect("read_payload completed");
-    let got: &[u8] = &got;
-    assert!(got.len() == 3 && got[0] == body[0] && got[1] == body[1] && got[2] == body[2],
-        "C05: the victim's payload is not its own body");
-    kani::cover!(dirt[21] == 0 && dirt[25] != 0, "dirty bytes behind an embedded NUL");
-    kani::cover!(body[0] == 0, "victim body starts with NUL");
-    std::mem::forget(fut);
+
+    let data = crate::support::io::template::<26>(b"GET /v HTTP/1.1\r\nB: xy\r\n\r\n", &[20, 21]);
+    kani::assume(data[20] >= 0x20 && data[20] < 0x7f && data[21] >= 0x20 && data[21] < 0x7f);
+    let data: &'static [u8; 26] = &*data;
+    let mut stream = SliceReader::new(&data[..], &[]);
+    let r = {
+        let mut fut = v::request_read(unsafe { std::pin::Pin::new_unchecked(&mut req) }, &mut stream);
+        let r = crate::support::exec::block_on_in_place(&mut fut, 1).expect("C05: read waits although the whole request arrived");
+        std::mem::forget(fut);
+        r
+    };
+    match r { Ok(Some(())) => {}, Ok(None) => panic!("C05: the second request was dropped"), Err(res) => { std::mem::forget(res); panic!("C05: the second request was refused"); } }
+    // exactly what the same bytes give on a fresh connection ...
+    assert!(req.method == Method::GET, "C05: method of the second request");
+    let p: &str = &req.path;
+    assert!(p == "/v", "C05: path of the second request");
+    assert!(req.query.iter().next().is_none(), "C05: query of an earlier request is visible");
+    assert!(req.headers.get("B").map(|b| b.as_bytes() == &data[20..22]) == Some(true), "C05: header of the second request");
+    // ... and nothing of the earlier one
+    assert!(req.headers.Host().is_none(), "C05: a standard header of an earlier request is visible");
+    assert!(req.headers.get("X-Old").is_none(), "C05: a custom header of an earlier request is visible");
+    assert!(req.payload().is_none(), "C05: the payload of an earlier request is visible");
+    assert!(req.context.get::<Marker>().is_none(), "C05: a context entry of an earlier request is visible");
+    kani::cover!(data[20] == b' ', "value with a leading space");
+    kani::cover!(data[20] != b' ', "value without");
     std::mem::forget(req);
 }
 
